@@ -78,7 +78,7 @@ func runStores(cfg Config) {
 				spec.End = "rollback"
 			case 1:
 				if cfg.Faults {
-					f = &decor.Fault{Index: 1 + rnd.Intn(45), After: rnd.Intn(3) == 0}
+					f = &decor.Fault{Index: 1 + rnd.Intn(22), After: rnd.Intn(3) == 0, OnlyStorage: true}
 				}
 			}
 			ok, err := r.RunTxn(ctx, fmt.Sprintf("t%d", st+1), &p, spec, f)
